@@ -21,8 +21,12 @@ PROPS["C11"] = {
              "plus {1023,1024,1025,2047,2048,4096} (thorough: more) with a sequence overfilling every shard; TestC11Random draws S and "
              "sequences with rapid. Non-trivial = at least one eviction observed AND (S is not a multiple of the observed shard count OR S < 16). "
              "Distinct = by S for the enumeration, by canonical scenario JSON for random cases. TestC11Reload: 2-5 reloads of the cache list (sizes from 1..4096 incl. both sides of 1024, the cache sometimes dropped and re-created) "
-             "with up to 20 000 new keys after each: the resident count may never exceed the largest size ever configured for that cache name."),
+             "with up to 20 000 new keys after each: the resident count may never exceed the largest size ever configured for that cache name. "
+             "TestC11Sim (engine S, through the server's cache middleware): sizes 1..24, with and without a store (mem / lazy), 6-40 keys with URIs of many lengths spread over 8 shards, 20-160 operations; after every operation "
+             "each cache holds exactly the keys the history accounts for (requested and neither dropped nor purged since), never more than S, the index of every shard holds as many keys as its recency list, and every reported removal names a resident key. "
+             "Non-trivial there = an eviction happened and some shard was filled to its limit."),
     "assumptions": [
+        "TestC11Sim counts the keys of the recency list (VerifLen) and of the index map (VerifIndexLen, reflection on groupcache's unexported map) of every shard",
         "resident keys are counted through the verif hook VerifLen (groupcache lru Len per shard) and removals through the library's OnEvicted callback",
         "keys are produced like server.getKey does (a fresh byte slice per call)",
     ],
@@ -30,6 +34,7 @@ PROPS["C11"] = {
         {"engine": "unit", "test": "TestC11AllSizes", "rapid": False, "quick": {"shards": 1, "timeout": 300}, "thorough": {"shards": 1, "timeout": 1200}},
         {"engine": "unit", "test": "TestC11Reload", "quick": {"shards": 4, "checks": 150, "timeout": 300}, "thorough": {"shards": 16, "checks": 3000, "timeout": 3000}},
         {"engine": "unit", "test": "TestC11Random", "quick": {"shards": 8, "checks": 1500, "timeout": 300}, "thorough": {"shards": 16, "checks": 20000, "timeout": 3000}},
+        {"engine": "sim", "test": "TestC11Sim", "quick": {"shards": 8, "checks": 250, "timeout": 400, "shrinktime": "15s"}, "thorough": {"shards": 16, "checks": 15000, "timeout": 3400, "shrinktime": "60s"}},
     ],
 }
 
@@ -238,10 +243,14 @@ PROPS["C20"] = {
     "rule": ("Workload phase = 30-120 free-running client goroutines for 2 s (thorough 5 s) on 4-60 keys (hot/cold mix, cacheable with lifetime 1 s / uncacheable with hit-for-pass 1 s, cache of 64 entries), Accept-Encoding and If-None-Match mixes, POSTs, "
              "purges every 0/5/20/100 ms, reloads (the main.update call sequence alternating compress levels, thresholds, filters, location headers) every 0/50/150/400 ms, optional burst->silence past expiry->burst pattern. Built with -race. "
              "Oracle = zero race-detector reports with a pike/elton frame, every response 200 (or 304 for a matching validator) and byte-equal to what the upstream produces for its own key, acceptable Content-Encoding. "
-             "evaluations = requests sent; non-trivial phase = hits, fetches and passes all occurred and purges or reloads ran. Statistical: it can show races, not their absence."),
+             "evaluations = requests sent; non-trivial phase = hits, fetches and passes all occurred and purges or reloads ran. Statistical: it can show races, not their absence. "
+             "TestC20Cache (entry level, -race): 10-40 bursts of 2-12 goroutines coalescing behind one fetch on the cache package itself; the fetch stores a generated response (200 B..220 KB, compressible or not, upstream identity/gzip/br, min length 0/1 KB/4 KB); "
+             "every woken request immediately reads the response it was handed and fills a context as the responder does: the body decodes to what was stored, and the response object is the published one and unchanged when a later hit looks at it (immutable after publication). Non-trivial = some request was answered from the fetch of another; evaluations = bursts."),
     "assumptions": _NETW_ASSUME + ["Go race detector (halt_on_error=0, log parsed by the test)", "schedules are whatever the runtime produces under load; nothing is replayable except the workload parameters"],
     "jobs": [{"engine": "netw", "race": True, "test": "TestC20", "solo": True, "env": {"GORACE": "log_path={cwd}/race halt_on_error=0", "VERIF_RACE_LOG": "{cwd}/race"},
-              "quick": {"shards": 1, "checks": 5, "timeout": 600, "shrinktime": "1s"}, "thorough": {"shards": 1, "checks": 60, "timeout": 3400, "shrinktime": "1s"}}],
+              "quick": {"shards": 1, "checks": 5, "timeout": 600, "shrinktime": "1s"}, "thorough": {"shards": 1, "checks": 60, "timeout": 3400, "shrinktime": "1s"}},
+             {"engine": "netw", "race": True, "test": "TestC20Cache", "env": {"GORACE": "log_path={cwd}/race halt_on_error=0", "VERIF_RACE_LOG": "{cwd}/race"},
+              "quick": {"shards": 4, "checks": 12, "timeout": 600, "shrinktime": "5s"}, "thorough": {"shards": 8, "checks": 300, "timeout": 3400, "shrinktime": "20s"}}],
 }
 
 _PROC_ASSUME = [
